@@ -164,6 +164,20 @@ Theorem C15_setcover_default_weights_old_refuted : exists I : msc_inst,
 Proof. exact msc_old_default_weights_refuted. Qed.
 Print Assumptions C15_setcover_default_weights_old_refuted.
 
+(* the E1 comparison itself is verified: when the extracted checker accepts, the LP read back from the solver and the model's LP
+   have the same satisfying assignments, the same objective function and direction -- hence the same optimal solutions.  Every
+   theorem above about `sat a (encode_mgs I k / encode_msc I)` therefore holds for the LP the implementation built on that instance. *)
+From FP Require Import LinEquiv.
+Theorem C15_lp_comparison_is_verified : forall (m1 m2 : milp), milp_equiv_b m1 m2 = true ->
+  (forall a, sat a m1 <-> sat a m2) /\ (forall a, (objective a m1 == objective a m2)%Q) /\ maximize m1 = maximize m2.
+Proof. exact milp_equiv_sound. Qed.
+Print Assumptions C15_lp_comparison_is_verified.
+
+Theorem C15_equivalent_lps_have_the_same_optima : forall (m1 m2 : milp), milp_equiv_b m1 m2 = true ->
+  forall a, (sat a m1 /\ forall b, sat b m1 -> obj_le m1 a b) <-> (sat a m2 /\ forall b, sat b m2 -> obj_le m2 a b).
+Proof. exact milp_equiv_optimal. Qed.
+Print Assumptions C15_equivalent_lps_have_the_same_optima.
+
 (* ---- non-vacuity ---- *)
 (* a satisfiable MinGenSet model: numbers [1;2], total 3, k = 2 (assignment Gen = 1,2; X = identity) *)
 Definition ex_mgs : mgs_inst := {| mg_numbers := [1; 2]; mg_total := 3; mg_int := true; mg_mult := 1; mg_parts := None |}.
